@@ -37,7 +37,7 @@ def body(c):
         w3 = L.generate(c, "wide (split sub-compactions)", g3, c.seed + 2, simulate=150, depth=10, workers=8, timeout=900)
     else:
         g3 = dict(L.BASE, Keys="{1, 2, 3, 4, 5, 6, 7}", MaxTs="10", MaxId="13", Wide="7", L0Hold="0", MtMax="3", MaxLevel="2")
-        w3 = L.generate(c, "wide (split sub-compactions)", g3, c.seed + 2, simulate=600, depth=14, workers=8, timeout=3000)
+        w3 = L.generate(c, "wide (split sub-compactions)", g3, c.seed + 2, simulate=150, depth=14, workers=8, timeout=3000)
     c3 = [x for x in L.dedupe(w3) if x["fam"] != "L0ToL0" and sum(len(l) for l in x["pre"]["lv"]) >= (4 if q else 5)]
     rnd.shuffle(c3)
     c.cov["cases_with_many_bottom_tables"] = len(c3)
